@@ -59,6 +59,9 @@ def layer (head : String) (args : List Sexp) : Option ((Stream → Stream) × (S
   | "map_to_any", [] => some (identity, k kId)
   | "tap", [_] => some (identity, k kId)
   | "timestamp", [] => some (identity, k kId)
+  | "observe_on_d", [] => some (identity, k kId)
+  | "subscribe_on_d", [] => some (identity, k kId)
+  | "delay0", [] => some (identity, k kId)
   | "time_interval", [] => some (timeInterval, k kTimeInterval)
   | _, _ => none
 
@@ -76,6 +79,12 @@ partial def evalPipe : Sexp → Option (Stream × Stream)
   | .list [.atom "error", e] => e.asNat.map fun e => (([], .error e), ([], .error e))
   | .list [.atom "start", v] => (parseData v).map fun d => (([d], .complete), ([d], .complete))
   | .list [.atom "defer", p] => evalPipe p
+  | .list [.atom "timer_d"] => some (([.unit], .complete), ([.unit], .complete))
+  -- the endless counter under `take n`: interval(d) emits 0,1,2,.. until unsubscribed.  Spec: the first n; kernel
+  -- side: the take kernel over a silent prefix that is one item longer than it needs
+  | .list [.atom "take", n, .list [.atom "interval_d"]] => n.asNat.map fun n =>
+      let pre (m : Nat) : List Data := (List.range m).map fun (i : Nat) => Data.int (i : Int)
+      ((pre n, .complete), evsToStream ((kTake n).run (pre (n + 1), .silent)))
   | .list [.atom "from_result_ok", v] => (parseData v).map fun d => (([d], .complete), ([d], .complete))
   | .list [.atom "from_result_err", e] => e.asNat.map fun e => (([], .error e), ([], .error e))
   | .list (.atom "cold" :: _ :: evs) => do
